@@ -368,6 +368,7 @@ fn main() {
         Some("gen") => gen_cmd(&args[1..]),
         Some("libfmt") => libfmt_cmd(),
         Some("pos") => pos_cmd(),
+        Some("nf") => nf_cmd(&args[1..]),
         Some("mirileg") => mirileg_cmd(&args[1..]),
         _ => {
             eprintln!("usage: sv worker|replay|fmt|gen ...");
@@ -388,4 +389,24 @@ fn pos_cmd() -> i32 {
         println!("{:?} text={:?} withtrivia={:?}", s, &src[s.start..s.end], &src[s.lead_start..s.trail_end]);
     }
     0
+}
+
+#[allow(dead_code)]
+fn nf_cmd(args: &[String]) -> i32 {
+    // sv nf <syntax> : prints the normal form of stdin
+    use std::io::Read;
+    let mut src = String::new();
+    std::io::stdin().read_to_string(&mut src).unwrap();
+    let syntax = cfg::SYNTAXES.iter().find(|s| args.first().map(|a| s.eq_ignore_ascii_case(a)).unwrap_or(false)).copied().unwrap_or("All");
+    let c = cfg::Cfg::with_syntax(syntax);
+    match fmt::parse(&src, &c) {
+        Some(ast) => {
+            println!("{}", nf::normal_form(&ast, c.int_subtype()).whole);
+            0
+        }
+        None => {
+            println!("does not parse");
+            2
+        }
+    }
 }
